@@ -283,6 +283,57 @@ def run():
             ck.reject(f"C16:huge-token:{kind}:{'repl' if how == 'REPL' else 'file'}", f"{kind} token of length {L} ({how}): program gives {got}, expected {want}",
                       {"kind": kind, "length": L, "reader": how, "observed": got, "expected": want})
     ck.cov["huge_token_programs"] = len(hreqs)
+    # OPTIONAL line breaks of the grammar (after an opening bracket, after a comma, before the closing bracket, around a parameter list): a program
+    # written with such a break - padded or not - is the program written without it.  `~` marks the positions the grammar allows.
+    opt = ["f(~1,~ 2~)", "f(~1,~ k: 2~)", "f(~**a~)", "f(~1,~ k: 2,~ **a~)", "f(~1,~ **a,~ **b~)", "f(~k: 2,~ **a~)", "o.m(~1,~ **a~)", "o.m(~1,~ k: 2,~ **a,~ **b~)", "[1, 2]@(~[]){|x| x}",
+           "[~1,~ 2~]", "[~*a,~ 2~]", "[~1~]", "{~a: 1,~ b: 2~}", "{~a: 1,~ **o~}", "{~**o,~ **p~}", "{~a: 1~}", "%{~1: 2,~ 3: 4~}", "%{~1: 2,~ **m~}", "%{~**m~}", "%{~**m,~ **n~}",
+           "{~|a,~ b~|~ a~}", "m{~|a~|~ .x~}", "<{~|a~|~ yield a~}>", "{~||~ 1~}", "{~|a, k: 1,~ j: 2~|~ a~}", "x.{~|a~|~ a~}", "f(~[~1,~ 2~],~ {~a: 1~}~)", "%{~|1|~ 2,~ |3|~ 4~}",
+           "x.f(~1,~ 2~).g(~k: 3,~ **a~)", "[~[~1~],~ [~2,~ 3~]~]", "r := f(~1,~ k: 2,~ **a~); r"]
+    pads = ["\n", "\n\n\n", "\n  # c | d\n", " \t\n    ", "\n#\n\n \n"]
+    oreqs, ometa = [], []
+    for t in opt:
+        parts = t.split("~")
+        flat = "".join(parts)
+        oreqs.append({"id": f"O{len(oreqs)}", "mode": "parse", "src": flat})
+        ometa.append((flat, None))
+        for i in range(1, len(parts)):
+            for pd in pads:
+                oreqs.append({"id": f"O{len(oreqs)}", "mode": "parse", "src": "".join(parts[:i]) + pd + "".join(parts[i:])})
+                ometa.append((flat, f"break at position {i} of {t!r} padded with {pd!r}"))
+        for pd in pads:
+            oreqs.append({"id": f"O{len(oreqs)}", "mode": "parse", "src": pd.join(parts)})
+            ometa.append((flat, f"breaks at every position of {t!r} padded with {pd!r}"))
+    oout = run_cases(oreqs, label="C16 optional breaks")
+    flat_ast = {}
+    for rq, (flat, what) in zip(oreqs, ometa):
+        if what is None:
+            flat_ast[flat] = oout[rq["id"]]["end"]
+            if not flat_ast[flat].startswith("ast:"):
+                raise pvlib.Broken(f"the one-line form {flat!r} does not parse: {flat_ast[flat][:100]}")
+    for rq, (flat, what) in zip(oreqs, ometa):
+        if what is not None and oout[rq["id"]]["end"] != flat_ast[flat]:
+            ck.reject("C16:optional-break:" + flat.split("(")[0].split("{")[0].split("[")[0][:8], f"{what}: parses to {oout[rq['id']]['end'][:160]}, the one-line form to {flat_ast[flat][:160]}",
+                      {"src": rq["src"], "one_line": flat, "observed": oout[rq["id"]]["end"][:600], "expected": flat_ast[flat][:600]})
+    ck.cov["optional_break_programs"] = len(oreqs)
+    # the REPL's multi-line reader hands the typed block to the parser as it was typed: indentation, trailing blanks and lines made of blanks
+    # only (they do not end the block - an EMPTY line does) are layout like anywhere else
+    blocks = ["[1,\n  2,\n  3].sum", "s := `a\n  b\n c \n\td`\ns.len", "{\n  a: 1,\n\t b: 2\n}.keys", "[1,\n   \n 2].len", "f := {|a,\n      b|\n  a + b\n}\nf(1,\n  2)",
+              "x := 5  \n  x + 1\t", "\"q\" +\n   \" r \"" if False else "y := \" r \"\n  y.len", "  # comment first\n  7", "%{1: 2,\n \t\n  3: 4}.len", "[1, 2]\n  |@{|e| e * 2}\n\t|$(0)+"]
+    rreqs = []
+    for k, b in enumerate(blocks):
+        rreqs.append({"id": f"R{k}", "mode": "repl", "stdin": "multi\n" + b + "\n\n", "fuel": 100000, "deadline_ms": 5000})
+        rreqs.append({"id": f"H{k}", "mode": "replchunks", "progs": [b + "\n"], "fuel": 100000, "deadline_ms": 5000})
+    rout = run_cases(rreqs, label="C16 REPL blocks")
+    MULTI = "<< multi-line mode (read lines until empty line is found) >>\n"
+    for k, b in enumerate(blocks):
+        o, h = rout[f"R{k}"], rout[f"H{k}"]
+        text = o["events"][0][3:] if o["events"] else ""
+        body = text[text.index(">>> "):] if ">>> " in text else text
+        want = ">>> nil\n" + MULTI + (h["events"][0][3:] if h["events"] else "<no reference>") + MULTI
+        if o["end"] != "exit:0" or h["end"] != "ok" or body != want:
+            ck.reject("C16:repl-block", f"typed into the REPL's multi-line mode, the block {b!r} prints {body[-200:]!r}; parsed as written it gives {want[-200:]!r}",
+                      {"block": b, "observed": body[-600:], "expected": want[-600:]})
+    ck.cov["repl_block_programs"] = len(blocks)
     ck.sample({"file": files[0][0], "variant": list(meta.values())[0][2], "tokens": len(rows[0]["a"])})
     ck.sample({"long": longs[7][0], "L": longs[7][1], "offset": longs[7][2]})
     ck.cov["evaluations"] = len(reqs)
